@@ -241,3 +241,87 @@ func firstDiff(a, b []string) string {
 	}
 	return ""
 }
+
+// checkContinuation appends, on the restored store, what the cluster would
+// append next: for an exact channel the source's own proposals above the cut
+// (an exact retry of what was in flight when the backup was cut) or a fresh
+// proposal chained to the tail; for a plain channel the rows above the cut or
+// one new row. Anything left behind above the watermark (rows, id / idempotency
+// indexes, proposal or entry identities, a remembered log end) makes this fail.
+func (h *harness) checkContinuation(n *node) {
+	r := h.r
+	ctx := context.Background()
+	for _, c := range h.chansOf(h.slotA) {
+		st, err := n.msg.ForChannel(channel.ChannelKey(c.Key), c.ID)
+		if err != nil {
+			r.FailSig("restore.content", "open", fmt.Sprintf("ForChannel(%s) on target: %v", c.Key, err), nil)
+			return
+		}
+		var msgs []msgModel
+		if c.leo() > c.CutHW {
+			msgs = c.Msgs[c.CutHW:]
+		} else {
+			h.b.nextID++
+			id := h.b.nextID
+			msgs = []msgModel{{Seq: c.CutHW + 1, ID: id, Epoch: c.Epoch, TSms: h.b.tsBase + int64(id), From: "u0", ClientNo: fmt.Sprintf("cont-%d", id), Payload: []byte("next")}}
+		}
+		bad := func(format string, args ...any) {
+			_ = st.Close()
+			r.FailSig("restore.above_watermark", "continuation", fmt.Sprintf("channel %s (cut hw=%d, source leo=%d retainedMax=%d): ", c.Key, c.CutHW, c.leo(), c.RetainedMax)+fmt.Sprintf(format, args...), nil)
+		}
+		if !c.Exact {
+			recs := make([]channel.Record, len(msgs))
+			for i, m := range msgs {
+				recs[i] = encodeRecord(c.ID, m)
+			}
+			base, err := st.Append(recs)
+			if err != nil || base != c.CutHW {
+				bad("appending %d rows after the restore: base=%d err=%v, want base=%d", len(recs), base, err, c.CutHW)
+				return
+			}
+			_ = st.Close()
+			continue
+		}
+		var props []propModel
+		for _, p := range c.Props {
+			if p.Base >= c.CutHW {
+				props = append(props, p)
+			}
+		}
+		if len(props) == 0 {
+			man := quorumlog.ProposalManifest{
+				Version: quorumlog.ProposalManifestVersion, ChannelEpoch: c.Epoch, LeaderTerm: c.Term, FenceVersion: 1 + c.Epoch,
+				BaseOffset: c.CutHW, LastOffset: c.CutHW + 1, PreviousIndex: c.CutHW,
+			}
+			man.CommandID[0], man.CommandID[1] = 0xfe, byte(msgs[0].ID)
+			for _, p := range c.Props {
+				if p.Last == c.CutHW {
+					man.PreviousTerm, man.PreviousDigest = p.Manifest.LeaderTerm, p.Manifest.Digest
+				}
+			}
+			sealed, entries, ok := quorumlog.SealProposalManifest(man, []quorumlog.Record{quorumRecord(msgs[0])})
+			if !ok {
+				_ = st.Close()
+				r.Infra("continuation: SealProposalManifest failed for %s", c.Key)
+				return
+			}
+			props = []propModel{{Base: c.CutHW, Last: c.CutHW + 1, Manifest: sealed, Entries: entries}}
+		}
+		for _, p := range props {
+			part := msgs[p.Base-c.CutHW : p.Last-c.CutHW]
+			recs := make([]channel.Record, len(part))
+			for i, m := range part {
+				recs[i] = encodeRecord(c.ID, m)
+			}
+			res := message.StoreAppendBatch(ctx, []message.AppendBatchItem{{
+				Store: st, Records: recs, ExactBaseOffset: true, ExpectedBaseOffset: p.Base, Proposal: p.Manifest,
+			}})
+			if len(res) != 1 || res[0].Err != nil || res[0].Outcome != quorumlog.AppendOutcomeDurable {
+				bad("proposing (%d,%d] after the restore: %+v, want a fresh durable append", p.Base, p.Last, res)
+				return
+			}
+		}
+		_ = st.Close()
+	}
+	r.Probe("restore.continuation_ok")
+}
